@@ -20,17 +20,6 @@ pub proof fn lemma_accepts(sig: Signature, ss: SpecSig, args: Seq<Rcvar>)
 pub open spec fn runtime_err_at(e: JmespathError, expr: Seq<char>, offset: usize) -> bool {
     e.reason is Runtime && e.expression@ == expr && e.offset == offset
 }
-// T1: serde_json::Number constructors (without arbitrary_precision)
-pub uninterp spec fn num_of_f64(x: f64) -> Number;
-pub uninterp spec fn num_of_usize(n: usize) -> Number;
-#[verifier::external_body]
-pub proof fn axiom_num_f64_finite(n: Number) ensures f64_finite(num_f64(n)) { }
-impl Number {
-    #[verifier::external_body]
-    pub fn from_f64(x: f64) -> (r: Option<Number>)
-        ensures r is Some <==> f64_finite(x), r matches Some(n) ==> n == num_of_f64(x) && num_f64(n) == x,
-    { unimplemented!() }
-}
 #[verifier::external_body]
 pub fn idiom_number_from_usize(n: usize) -> (r: Number) ensures r == num_of_usize(n) { unimplemented!() }
 // T2: f64 leaf operations (uninterpreted; finiteness facts are IEEE-754)
